@@ -90,7 +90,8 @@ Definition crash_image (st : file) (sel : nat -> bool) (len : nat) : list byte :
 (* the writer.  Sizes: H = TotalHeaderSize(order); contents are arbitrary parameters:
      vocab1   the vocabulary table as it is when the search area is allocated (|vocab1| = V)
      vocab2   the vocabulary table after loading finished (same length)
-     search1  the search structure as built (|search1| = P + M: padding and memory)
+     pad      vocab_pad: bytes between the vocabulary table and the search structure that are never written (a hole)
+     search1  the search structure as built (|search1| = M), stored at H + V + pad
      search2  the search structure after the <unk> patch (same length)
      words    the vocabulary strings, '\0' separated
      header   the real header (|header| = H, begins with the reference Sanity) *)
@@ -103,23 +104,24 @@ Definition header_size (order : nat) : nat := align8 (sanity_size + fixed_size +
 Definition incomplete_header (H : nat) : list byte := firstn H (magic_incomplete ++ repeat zero (H - length magic_incomplete)).
 
 Record contents := {
-  c_H : nat; c_vocab1 : list byte; c_vocab2 : list byte; c_search1 : list byte; c_search2 : list byte;
+  c_H : nat; c_vocab1 : list byte; c_vocab2 : list byte; c_pad : nat; c_search1 : list byte; c_search2 : list byte;
   c_words : list byte; c_header : list byte }.
 
 (* the trace up to (excluding) the sync that FinishFile performs before the header is written *)
 Definition body_trace (wm : write_method) (include_vocab : bool) (c : contents) : list sysop :=
   let H := c_H c in
   let HV := H + length (c_vocab1 c) in
-  let tot := HV + length (c_search1 c) in
+  let HVP := HV + c_pad c in
+  let tot := HVP + length (c_search1 c) in
   match wm with
   | WriteMmap =>
       (* SetupJustVocab: CreateOrThrow, MapZeroedWrite = ResizeOrThrow 0, ResizeOrThrow total, MapOrThrow; strncpy *)
       [Create; Truncate 0; Truncate HV; Mmap HV; MapStore 0 (incomplete_header H); MapStore H (c_vocab1 c)] ++
       (* GrowForSearch: mapping_.reset() (scoped_mmap: msync, munmap), ResizeOrThrow, MapFile *)
-      [Msync HV; Munmap HV; Truncate tot; Mmap tot; MapStore H (c_vocab2 c); MapStore HV (c_search1 c)] ++
+      [Msync HV; Munmap HV; Truncate tot; Mmap tot; MapStore H (c_vocab2 c); MapStore HVP (c_search1 c)] ++
       (* WriteVocabWords: mapping_.reset(), SeekOrThrow, WriteOrThrow, MapFile *)
       (if include_vocab then [Msync tot; Munmap tot; Write tot (c_words c); Mmap tot] else []) ++
-      [MapStore HV (c_search2 c)] ++
+      [MapStore HVP (c_search2 c)] ++
       (* FinishFile, first half: SyncOrThrow(mapping) *)
       [Msync tot]
   | WriteAfter =>
@@ -127,7 +129,7 @@ Definition body_trace (wm : write_method) (include_vocab : bool) (c : contents) 
       [Create; Truncate 0] ++
       (if include_vocab then [Write tot (c_words c)] else []) ++
       (* FinishFile, first half: the vocabulary memory (with the incomplete magic in front) and the search memory *)
-      [Write 0 (incomplete_header H ++ c_vocab2 c); Write HV (c_search2 c)]
+      [Write 0 (incomplete_header H ++ c_vocab2 c); Write HVP (c_search2 c)]
   end.
 
 (* the sync before the header.  `fixed` = the code after the C09 fix (FinishFile fsyncs in the mmap method
@@ -143,7 +145,7 @@ Definition header_op (wm : write_method) (c : contents) : sysop :=
 
 (* after the header: FinishFile's second SyncOrThrow, then ~BinaryFormat (scoped_memory: msync, munmap), ~scoped_fd *)
 Definition tail_trace (wm : write_method) (c : contents) : list sysop :=
-  let tot := c_H c + length (c_vocab1 c) + length (c_search1 c) in
+  let tot := c_H c + length (c_vocab1 c) + c_pad c + length (c_search1 c) in
   match wm with
   | WriteMmap => [Msync tot; Msync tot; Munmap tot; Close]
   | WriteAfter => [Close]
@@ -157,9 +159,9 @@ Definition finish_trace := finish_trace_gen true.
 (* the code before commit "fix: ... fsync ..." (kept for the refutation witness) *)
 Definition finish_trace_before_fix := finish_trace_gen false.
 
-(* the same trace as strace sees it, from the sizes alone: HV = H + V, PM = P + M, W = |words| *)
-Definition finish_shape (wm : write_method) (include_vocab : bool) (H HV PM W : nat) : list shape :=
-  let tot := HV + PM in
+(* the same trace as strace sees it, from the sizes alone: HV = H + V, P = vocab_pad, M = |search|, W = |words| *)
+Definition finish_shape (wm : write_method) (include_vocab : bool) (H HV P M W : nat) : list shape :=
+  let tot := HV + P + M in
   match wm with
   | WriteMmap =>
       [SCreate; STruncate 0; STruncate HV; SMmap HV; SMsync HV; SMunmap HV; STruncate tot; SMmap tot] ++
@@ -167,7 +169,7 @@ Definition finish_shape (wm : write_method) (include_vocab : bool) (H HV PM W : 
       [SMsync tot; SFsync; SMsync tot; SMsync tot; SMunmap tot; SClose]
   | WriteAfter =>
       [SCreate; STruncate 0] ++ (if include_vocab then [SWrite tot W] else []) ++
-      [SWrite 0 HV; SWrite HV PM; SFsync; SWrite 0 H; SClose]
+      [SWrite 0 HV; SWrite (HV + P) M; SFsync; SWrite 0 H; SClose]
   end.
 
 (* ------------------------------------------------------------------------------------------ *)
